@@ -1230,6 +1230,31 @@ fn roughly_properties(
             })
 }
 
+/// Verification hooks: forwarders to private leaf merge functions.
+#[cfg(feature = "verif-hooks")]
+pub(crate) mod verif {
+    use super::*;
+
+    pub(crate) fn instance_type(
+        a: Option<&SingleOrVec<InstanceType>>,
+        b: Option<&SingleOrVec<InstanceType>>,
+    ) -> Result<Option<SingleOrVec<InstanceType>>, ()> {
+        merge_so_instance_type(a, b)
+    }
+
+    pub(crate) fn format(a: Option<&String>, b: Option<&String>) -> Result<Option<String>, ()> {
+        merge_so_format(a, b)
+    }
+
+    pub(crate) fn array(
+        a: Option<&ArrayValidation>,
+        b: Option<&ArrayValidation>,
+        defs: &BTreeMap<RefKey, Schema>,
+    ) -> Result<Option<Box<ArrayValidation>>, ()> {
+        merge_so_array(a, b, defs)
+    }
+}
+
 #[cfg(test)]
 mod tests {
     use std::collections::BTreeMap;
